@@ -18,6 +18,9 @@ CLAIMED = {
  "C20": dict(cat="proof", tech="contracts + AST->VC symbolic execution (LIA over symbolic shapes/offsets, pointwise arrays), callee contract for the alignment helper; def-use and call-graph obligations for the loaders, z3",
    text="fit_into_array is executed symbolically for arbitrary input/output shapes, offsets and the five alignment keywords: an accepted placement satisfies placed(out, array, p) at an arbitrary output pixel (input pixel the offset puts there, zero elsewhere), non-overlapping or too-small inputs are exactly the rejected ones; _set_relative_position is proved against the statement's alignment definitions and used through its contract. The loading models pass (position_y, position_x), align and the detector shape (def-use normalised call-argument obligations). A memoised loader that reads the file system must carry a file-signature key component (cache.fresh). Delimiter list and suffix table of load_image are AST obligations.",
    note="Trusted: np.intersect1d/np.array(range) contracts on integer ranges; file decoding by numpy/astropy/PIL is outside (not claimed); a file's (mtime_ns, size) changes when it is rewritten.", ref="6 (C20)"),
+ "C01": dict(cat="proof", tech="modular contracts with a ghost call trace; loop invariants over symbolic-length model lists (z3 sequences + recursive spec functions)",
+   text="Chain of contracts proved function by function on the real source: ModelFunction.__call__ invokes the user function once with the detector and exactly the configured arguments; ModelGroup.__iter__ yields the enabled models in list order (loop invariant over a symbolic list); ModelGroup.run appends exactly their events to the ghost TRACE, debug on or off, and lets a model's exception escape unchanged; Processor.run_pipeline yields TRACE' = TRACE ++ expected(pipeline) for the group order written in the STATEMENT, for arbitrary presence/absence of the ten groups (generic-index loop proof); DetectionPipeline.__init__ binds every group to its own list; to_pipeline builds the same groups for any key order; models are invoked from nowhere else (call-graph obligations).",
+   note="Trusted: **mapping semantics, logging dropped, the xarray bookkeeping of the debug block (abstract block; model calls inside it are executed). call.args and yaml.to_pipeline are bounded in the number of arguments (0..3) / models per group (0..2); every other obligation is unbounded.", ref="6 (C01)"),
 }
 PENDING_REASON = "check not built yet in this session (planned in DESIGN.md section 6); not claimed until its obligations are generated from the real code"
 def main():
